@@ -71,6 +71,11 @@ class Machine:
         self.base_pops = 0
         self.assume_base: Optional[bool] = None  # None = not needed yet
         self.forked = False
+        # decisions taken at tests on the *text* of a child (``PAT.fullmatch(left)``, ``left.isalnum()``): both
+        # outcomes are possible for some child text, so the driver explores both
+        self.choices: List[bool] = []
+        self.choice_i = 0
+        self.text_tests: List[str] = []
         self.env: Dict[str, Any] = {}
 
     # -- expressions -----------------------------------------------------
@@ -285,6 +290,13 @@ class Machine:
                     ast.Eq: a == b, ast.NotEq: a != b, ast.Lt: a < b, ast.LtE: a <= b, ast.Gt: a > b, ast.GtE: a >= b,
                 }[type(op)]
             raise Inconclusive(f"comparison {ast.unparse(node)}")
+        if isinstance(node, ast.Call) and self.is_text_test(node):
+            if self.choice_i >= len(self.choices):
+                raise NeedChoice()
+            d = self.choices[self.choice_i]
+            self.choice_i += 1
+            self.text_tests.append(("" if d else "not ") + ast.unparse(node)[:60])
+            return d
         v = self.ev(node)
         if v == "STACK":
             if self.stack:
@@ -299,6 +311,21 @@ class Machine:
         if isinstance(v, bool):
             return v
         raise Inconclusive(f"truth of {ast.unparse(node)[:40]}")
+
+    def is_text_test(self, node: ast.Call) -> bool:
+        """A call whose receiver or argument is the symbolic text of a sub-tree / token of this node and whose
+        result is only used as a truth value: a predicate on child text (str methods, compiled-regex methods)."""
+        if not isinstance(node.func, ast.Attribute):
+            return False
+        if node.func.attr not in ("fullmatch", "match", "search", "startswith", "endswith", "isalnum", "isidentifier",
+                                  "isdigit", "isalpha", "isnumeric", "isdecimal", "islower", "isupper", "isspace"):
+            return False
+        operands = [node.func.value] + list(node.args)
+        for o in operands:
+            o = strip_cast(o)
+            if isinstance(o, ast.Name) and isinstance(self.env.get(o.id), Str) and any(k != "c" for k, _ in self.env[o.id].parts):
+                return True
+        return False
 
     # -- statements ------------------------------------------------------
     def run(self, stmts: Sequence[ast.stmt]) -> bool:
@@ -342,6 +369,10 @@ class Machine:
 
 
 class NeedFork(Exception):
+    pass
+
+
+class NeedChoice(Exception):
     pass
 
 
@@ -413,25 +444,39 @@ def check_dump(repo: Repo, run: Run, g: Grammar, rule_prefix: str = "C06") -> No
             site = mod.loc(fn)
             analysed.append(f"{rule}{list(shape)}")
             outcomes = []
-            for assume in (None, True, False):
-                m = Machine(g, rule, shape)
-                m.assume_base = assume
-                m.env = {}
-                try:
-                    m.run(fn.body)
-                    outcomes.append(("ok", m))
-                except NeedFork:
-                    continue  # re-run with both assumptions
-                except BasePop:
-                    outcomes.append(("basepop", m))
-                except IndexError as ex:
-                    outcomes.append(("index", str(ex)))
-                except AssertionError as ex:
-                    outcomes.append(("assert", str(ex)))
-                except Inconclusive as ex:
-                    outcomes.append(("inc", str(ex)))
-                if assume is None:
-                    break
+            pending: List[List[bool]] = [[]]
+            while pending:
+                choices = pending.pop()
+                if len(choices) > 4:
+                    outcomes.append(("inc", "more than 4 nested tests on child text"))
+                    continue
+                need_choice = False
+                for assume in (None, True, False):
+                    m = Machine(g, rule, shape)
+                    m.assume_base = assume
+                    m.choices = choices
+                    m.env = {}
+                    try:
+                        m.run(fn.body)
+                        outcomes.append(("ok", m))
+                    except NeedFork:
+                        continue  # re-run with both assumptions
+                    except NeedChoice:
+                        need_choice = True
+                        break
+                    except BasePop:
+                        outcomes.append(("basepop", m))
+                    except IndexError as ex:
+                        outcomes.append(("index", str(ex)))
+                    except AssertionError as ex:
+                        outcomes.append(("assert", str(ex)))
+                    except Inconclusive as ex:
+                        outcomes.append(("inc", str(ex)))
+                    if assume is None:
+                        break
+                if need_choice:
+                    pending.append(choices + [True])
+                    pending.append(choices + [False])
             if any(o[0] == "inc" for o in outcomes):
                 why = [o[1] for o in outcomes if o[0] == "inc"][0]
                 run.inconclusive(f"{rule_prefix}.D1", f"DumpAST.{rule}", f"shape {shape}: {why}")
@@ -460,7 +505,8 @@ def check_dump(repo: Repo, run: Run, g: Grammar, rule_prefix: str = "C06") -> No
                         got = m.stack[0]
                         if got.canon() not in expected:
                             d2_ok = False
-                            d2_msgs.append(f"renders `{got.show()}` for production {sorted(e.replace(chr(0), '') for e in expected)}")
+                            when = f" when {' and '.join(m.text_tests)}" if m.text_tests else ""
+                            d2_msgs.append(f"renders `{got.show()}`{when} for production {sorted(e.replace(chr(0), '') for e in expected)}")
                         else:
                             # alphabetic operator tokens (``in``) need blanks around them
                             for k, v in got.parts:
